@@ -60,6 +60,10 @@ def main():
     rnd = sys.argv[sys.argv.index("--round") + 1] if "--round" in sys.argv else "1"
     src = "/var/tmp/seed/%s/out%s/%s" % (pid, "" if rnd == "1" else rnd, k)
     dst = os.path.join(V, "seeded", pid, k if rnd == "1" else "r%s_%s" % (rnd, k))
+    try:
+        old_conf = json.load(open(os.path.join(dst, "meta.json"))).get("coordinator_confirmation", {})
+    except Exception:
+        old_conf = {}
     if os.path.exists(src):
         os.makedirs(os.path.dirname(dst), exist_ok=True)
         if os.path.exists(dst):
@@ -105,8 +109,8 @@ def main():
         conf["checks"] = det
         conf["detected"] = any(d["exit"] == 1 and d["violation_lines"] > 0 for d in det.values())
     sh("git checkout -q -- . && git clean -fdq -e _build", cwd=CLONE)
-    old = meta.get("coordinator_confirmation", {})
-    for k in ("demo_before", "demo_after"):      # a re-run with --skip-demo keeps the recorded demonstration result
+    old = meta.get("coordinator_confirmation", {}) or old_conf
+    for k in ("demo_before", "demo_after", "pinned_suite", "pinned_missing"):      # a re-run with --skip-demo / --skip-suite keeps the recorded results
         if k not in conf and k in old:
             conf[k] = old[k]
     meta["coordinator_confirmation"] = conf
